@@ -93,6 +93,56 @@ def build_input(O, S, leafmap, costs, leafsyn=None, onames=None, snames=None, of
     return SuperReconciliationInput(ot, lca, los, cd, syn), onode, snode
 
 
+def pack(obj):
+    import base64
+    import pickle
+    return base64.b64encode(pickle.dumps(obj)).decode()
+
+
+def unpack(text):
+    import base64
+    import pickle
+    return pickle.loads(base64.b64decode(text))
+
+
+class Session:
+    """Operation histories on shared objects: ONE object tree, ONE species tree, ONE LowestCommonAncestor, ONE input object
+    whose leaf assignment / cost / synteny dicts are updated IN PLACE from one case to the next - the way a caller who
+    sweeps assignments, costs or syntenies over fixed trees works (the package's own tests mutate `costs` in place).
+    `unnamed=True` leaves the ancestors of both trees without a name."""
+
+    def __init__(self, O, S, labelled=False, unordered=False, unnamed=False):
+        self.O, self.S, self.labelled, self.unordered = O, S, labelled, unordered
+        on = {v: ("" if (unnamed and O.children[v]) else f"o{v}") for v in range(O.n)}
+        sn = {v: ("" if (unnamed and S.children[v]) else f"s{v}") for v in range(S.n)}
+        self.ot, self.st, _, _ = build_trees(O, S, on, sn)
+        self.onode = nodes_by_index(O, self.ot)
+        self.snode = nodes_by_index(S, self.st)
+        self.lca = LowestCommonAncestor(self.st)
+        self.los, self.costs, self.syn = {}, {}, {}
+        if labelled:
+            self.inp = SuperReconciliationInput(self.ot, self.lca, self.los, self.costs, self.syn)
+        else:
+            self.inp = ReconciliationInput(self.ot, self.lca, self.los, self.costs)
+        self.calls = 0
+
+    def set(self, leafmap, costs, leafsyn=None, rootsyn=None):
+        """update the shared input in place; -> (input, onode, snode)"""
+        for v, sp in leafmap.items():
+            self.los[self.onode[v]] = self.snode[sp]
+        self.costs.update(cost_dict(costs))
+        if self.labelled:
+            root = self.onode[self.O.root]
+            if rootsyn is None:
+                self.syn.pop(root, None)
+            else:
+                self.syn[root] = list(rootsyn)
+            for v, x in leafsyn.items():
+                self.syn[self.onode[v]] = (set(x) if self.unordered else list(x))
+        self.calls += 1
+        return self.inp, self.onode, self.snode
+
+
 def build_output(O, S, leafmap, costs, m, onames=None, snames=None, ofeats=None, sfeats=None):
     inp, onode, snode = build_input(O, S, leafmap, costs, None, onames, snames, ofeats, sfeats)
     out = ReconciliationOutput(inp, {onode[v]: snode[s] for v, s in m.items()})
